@@ -2,7 +2,7 @@
 
 use crate::{
     engines::{wire::*, wire_interp::*},
-    ids,
+    ids, keys,
     props::wire_gen,
     runner::{CaseReport, Property, Tier},
 };
@@ -18,9 +18,88 @@ use serde::{Deserialize, Serialize};
 pub struct Case {
     pub cfg: WireConfig,
     pub ops: Vec<Op>,
+    /// service-engine companion; when present the wire schedule is not run
+    #[serde(default)]
+    pub svc: Option<SvcIdentity>,
 }
 
 pub struct C01;
+
+/// Companion on the service engine: what the SERVICE does with the handler's who-are-you query, the
+/// one handler event that is triggered by a datagram nobody has authenticated.
+#[derive(Clone, Debug, PartialEq, Eq, Hash, Serialize, Deserialize)]
+pub struct SvcIdentity {
+    /// table members: (pool key, connected through an incoming session)
+    pub peers: Vec<(u8, bool)>,
+    /// unauthenticated packets: (claimed peer index, source address kind 0 the record's socket /
+    /// 1 other port / 2 other ip / 3 IPv6, claimed id unknown to the service instead)
+    pub probes: Vec<(u8, u8, bool)>,
+}
+
+async fn run_svc_identity(c: &SvcIdentity, rep: &mut CaseReport) -> Option<(String, String)> {
+    use crate::engines::svc::{reset_globals, shaped_record, svc_addr4, Shape, Svc, SvcConfig};
+    use discv5::{verif::ConnectionDirection as Dir, NodeAddress};
+    reset_globals();
+    let mut s = Svc::new(SvcConfig { key_idx: 0, ..Default::default() }).await;
+    let mut members: Vec<u32> = Vec::new();
+    for (k, incoming) in c.peers.iter().take(8) {
+        let key = 1200 + (*k as u32 % 40);
+        if members.contains(&key) {
+            continue;
+        }
+        members.push(key);
+        s.inject(HandlerOut::Established(shaped_record(key, 1, Shape::V4), svc_addr4(key), if *incoming { Dir::Incoming } else { Dir::Outgoing })).await;
+    }
+    if members.is_empty() {
+        return None;
+    }
+    s.take_outbox();
+    s.take_events();
+    let snapshot = |s: &Svc| -> Vec<(ids::Id, u64, String)> {
+        let mut v: Vec<(ids::Id, u64, String)> = s.d.table_entries().into_iter().map(|(id, enr, st)| (id.raw(), enr.seq(), format!("{st:?}"))).collect();
+        v.sort();
+        v
+    };
+    rep.class("service-companion");
+    for (j, (pi, kind, unknown)) in c.probes.iter().enumerate() {
+        let key = members[*pi as usize % members.len()];
+        let claimed = if *unknown { keys::id_of(1300 + j as u32) } else { keys::id_of(key) };
+        let rec_addr = svc_addr4(key);
+        let src = match kind % 4 {
+            0 => rec_addr,
+            1 => std::net::SocketAddr::new(rec_addr.ip(), rec_addr.port() + 1),
+            2 => std::net::SocketAddr::new(std::net::IpAddr::V4(std::net::Ipv4Addr::new(10, 66, 1, 1 + j as u8)), rec_addr.port()),
+            _ => std::net::SocketAddr::new(std::net::IpAddr::V6(std::net::Ipv6Addr::new(0x2001, 0xdb8, 0, 0x66, 0, 0, 0, 1 + j as u16)), 7000),
+        };
+        let before = snapshot(&s);
+        let mut nonce = [0u8; 12];
+        nonce[0] = j as u8;
+        s.inject(HandlerOut::WhoAreYou(hv::whoareyou_ref(NodeAddress::new(src, ids::node_id(&claimed)), nonce))).await;
+        let after = snapshot(&s);
+        let events = s.take_events();
+        s.take_outbox();
+        if before != after {
+            let what = before.iter().find(|b| !after.contains(b)).map(|b| format!("{} seq {} {}", ids::hex_id(&b.0), b.1, b.2)).unwrap_or_default();
+            return Some((
+                "identity/table-entry-changed-by-unauthenticated-packet".into(),
+                format!(
+                    "a packet that nobody authenticated, claiming {} from {src}, made the handler ask the service for that node's record - and the routing table changed: entry {what} is now {:?}",
+                    if *unknown { "an unknown id" } else { "a table member's id" },
+                    after.iter().find(|a| before.iter().any(|b| b.0 == a.0 && b != *a)).map(|a| a.2.clone())
+                ),
+            ));
+        }
+        if let Some(e) = events.iter().find(|e| !matches!(e, discv5::Event::Discovered(_))) {
+            return Some(("identity/event-after-unauthenticated-packet".into(), format!("the service emitted {e:?} because of a packet nobody authenticated")));
+        }
+        if !*unknown && kind % 4 != 0 {
+            rep.nontrivial = true;
+            rep.class("service-companion/table-member-claimed-from-another-socket");
+        }
+    }
+    s.d.shutdown();
+    None
+}
 
 #[derive(Default)]
 pub struct Identity {
@@ -269,7 +348,7 @@ impl Property for C01 {
     }
     fn strategy(tier: Tier) -> BoxedStrategy<Case> {
         let n = tier.pick(25usize, 60usize);
-        wire_gen::config_strategy(true)
+        let wire_cases = wire_gen::config_strategy(true)
             .prop_flat_map(move |cfg| {
                 let np = cfg.n_peers;
                 (Just(cfg), wire_gen::ops_strategy(np, wire_gen::Mix::Identity, n))
@@ -283,18 +362,31 @@ impl Property for C01 {
                 if cfg.seqs.first().map(|s| s % 3 == 0).unwrap_or(false) {
                     cfg.foreign_enr_answer = vec![1];
                 }
-                Case { cfg, ops }
-            })
-            .boxed()
+                Case { cfg, ops, svc: None }
+            });
+        let wire = wire_cases;
+        let companion = (
+            wire_gen::config_strategy(false),
+            proptest::collection::vec((any::<u8>(), any::<bool>()), 1..8),
+            proptest::collection::vec((any::<u8>(), 0u8..4, prop_oneof![4 => Just(false), 1 => Just(true)]), 1..8),
+        )
+            .prop_map(|(cfg, peers, probes)| Case { cfg, ops: vec![], svc: Some(SvcIdentity { peers, probes }) });
+        prop_oneof![60 => wire, 1 => companion].boxed()
     }
     fn run(case: &Case) -> CaseReport {
         let mut rep = CaseReport::default();
+        if let Some(sv) = &case.svc {
+            if let Some((s, d)) = crate::engines::svc::run_blocking(run_svc_identity(sv, &mut rep)) {
+                rep.fail(s, d);
+            }
+            return rep;
+        }
         let mut o = Identity::default();
         run_case_blocking(case.cfg.clone(), &case.ops, Drain::None, &mut o, &mut rep);
         rep
     }
     fn rule() -> String {
-        "attack scripts (<=25 quick / <=60 thorough ops) against V with 1..3 honest peers exchanging genuine traffic: for a claimed id X in {an honest peer known to V with its current record, with an older record, unknown to V, a random id} the attacker (own keys, 3 source addresses, never a peer's secret key) sends undecryptable probes to provoke V's WHOAREYOU, then handshakes built with the real primitives: signed by an attacker key / garbage / empty / truncated, ephemeral key valid / invalid point / wrong length, attached record = the attacker's own record (seq 0, below, equal, above the known one, 2^64-1; address matching / other / absent), the peer's genuine record, a third party's record, none; bodies PING / FINDNODE / TALK encrypted under the keys the attacker can derive, follow-up messages under those keys, replays, forged WHOAREYOUs, and requests V sends to the peer's key at an attacker address. Invariant after every step: no request/response/Established/UnverifiableEnr attributed to a foreign id at an attacker address, no session keyed to it created by an inbound handshake, nothing V emits to it decrypts under an attacker-derivable key, and honest sessions/requests are untouched by steps that only process attacker traffic. Non-trivial = a forged handshake whose id-signature verifies under the attached record's key arrives while V's WHOAREYOU to (X, attacker address) is outstanding.".into()
+        "attack scripts (<=25 quick / <=60 thorough ops) against V with 1..3 honest peers exchanging genuine traffic: for a claimed id X in {an honest peer known to V with its current record, with an older record, unknown to V, a random id} the attacker (own keys, 3 source addresses, never a peer's secret key) sends undecryptable probes to provoke V's WHOAREYOU, then handshakes built with the real primitives: signed by an attacker key / garbage / empty / truncated, ephemeral key valid / invalid point / wrong length, attached record = the attacker's own record (seq 0, below, equal, above the known one, 2^64-1; address matching / other / absent), the peer's genuine record, a third party's record, none; bodies PING / FINDNODE / TALK encrypted under the keys the attacker can derive, follow-up messages under those keys, replays, forged WHOAREYOUs, and requests V sends to the peer's key at an attacker address. Invariant after every step: no request/response/Established/UnverifiableEnr attributed to a foreign id at an attacker address, no session keyed to it created by an inbound handshake, nothing V emits to it decrypts under an attacker-derivable key, and honest sessions/requests are untouched by steps that only process attacker traffic. One case in 61 is a companion on the service engine: a real service with 1..8 table members (incoming and outgoing) receives the handler's who-are-you query - the one handler event triggered by a datagram nobody authenticated - for a member's id or an unknown id from the record's socket, another port, another IP or an IPv6 address; the routing table (ids, record versions, connection status) must be unchanged afterwards and no event may be emitted. Non-trivial = a forged handshake whose id-signature verifies under the attached record's key arrives while V's WHOAREYOU to (X, attacker address) is outstanding.".into()
     }
     fn assumptions() -> Vec<String> {
         vec![
